@@ -58,7 +58,7 @@ def cfg_text(kind=KINDS[0], ops=ALL_OPS, max_req=3, max_pend=1, exhaustive=True,
 
 def model_check(ctx, name, **kw):
     cfg = stages.write_cfg(ctx, name + ".cfg", cfg_text(**kw))
-    res = ctx.tlc("GsT", cfg, timeout=1500, heap="10g", workers=6 if ctx.quick() else 12)
+    res = ctx.tlc("GsT", cfg, timeout=1500, heap="10g", workers=10 if ctx.quick() else (8 if kw.get("max_req", 3) >= 3 else 3))
     if res.timeout:
         raise Inconclusive("TLC timeout on GsT/%s" % name)
     if res.violated:
@@ -127,25 +127,26 @@ def run(ctx):
     ]
     seed = ctx.seed
     pool = ThreadPoolExecutor(max_workers=8)
+    spool = ThreadPoolExecutor(max_workers=6)
     # 0. harness build (in the background while TLC works)
     fb = pool.submit(ctx.go_bin, "gstx")
     # 1. exhaustive model checking
     if q:
-        exh = [("gst-exh-q", dict(kind=KINDS[0], max_req=2))]
+        exh = [("gst-exh-q", dict(kind=KINDS[0], max_req=2, ops=NOSHUT))]
     else:
-        exh = [("gst-exh-3", dict(kind=KINDS[0], max_req=3, ops=NOSHUT)), ("gst-exh-q1", dict(kind=KINDS[0], max_req=2, req_peers=("P", "Q"))), ("gst-exh-q2", dict(kind=KINDS[1], max_req=2, req_peers=("P", "Q"))),
-               ("gst-exh-q3", dict(kind=KINDS[2], max_req=2, req_peers=("P", "Q"))), ("gst-exh-q4", dict(kind=KINDS[3], max_req=2, req_peers=("P", "Q")))]
+        exh = [("gst-exh-3", dict(kind=KINDS[0], max_req=3, ops=NOSHUT)), ("gst-exh-q1", dict(kind=KINDS[0], max_req=2, req_peers=("P", "Q"))), ("gst-exh-q2", dict(kind=KINDS[1], max_req=2)),
+               ("gst-exh-q3", dict(kind=KINDS[2], max_req=2)), ("gst-exh-q4", dict(kind=KINDS[3], max_req=2))]
     fe = [pool.submit(model_check, ctx, n, **kw) for n, kw in exh]
     fc = pool.submit(consumer_cex, ctx)
     # 2. behaviours
-    n_per, length = (40, 16) if q else (220, 22)
+    n_per, length = (70, 16) if q else (80, 22)
     jobs = []
     k = 0
-    for mix in MIXES:
-        for kind in (KINDS[:2] if q else KINDS):
-            if q and mix in ("all",) and kind != KINDS[0]:
+    for mi, mix in enumerate(MIXES):
+        for ki, kind in enumerate(KINDS):
+            if q and ki != (mi + seed) % len(KINDS):
                 continue
-            jobs.append((mix, kind, pool.submit(simulate, ctx, mix, kind, n_per if mix != "all" else n_per // 2, length, seed * 7919 + k)))
+            jobs.append((mix, kind, spool.submit(simulate, ctx, mix, kind, n_per if mix != "all" else n_per // 2, length, seed * 7919 + k)))
             k += 1
     cases = []
     for mix, kind, f in jobs:
@@ -171,11 +172,11 @@ def run(ctx):
     # 3. replay on the real adapter
     b = fb.result()
     obs = ctx.path("gst-obs.ndjson")
-    ctx.must_run_go(b, "TestReplay", env={"VERIF_CASES": cp, "VERIF_OUT": obs})
+    ctx.must_run_go(b, "TestReplay", env={"VERIF_CASES": cp, "VERIF_OUT": obs}, timeout=240)
     # 4. storms (and, thorough tier, the same storms under the race detector)
     storm = ctx.path("gst-storm.ndjson")
     nst = 8 if q else 40
-    ctx.must_run_go(b, "TestStorm", env={"VERIF_OUT": storm, "VERIF_STORMS": nst})
+    ctx.must_run_go(b, "TestStorm", env={"VERIF_OUT": storm, "VERIF_STORMS": nst}, timeout=300)
     storm_files = [storm]
     if not q or os.environ.get("VERIF_RACE") == "1":
         br = ctx.go_bin("gstx", race=True)
@@ -222,6 +223,7 @@ def run(ctx):
     n1, _, v1 = j1.result()
     _, n2, v2 = j2.result()
     pool.shutdown()
+    spool.shutdown()
     obs_idx = stages.index_obs(obs)
     storm_rows = vlib.read_ndjson(allstorm)
     if n1 != len(obs_idx) or n1 != len(cases):
